@@ -346,9 +346,25 @@ _symbols._pyvc_method = True
 _symbols_method = _symbols
 
 
+def h_accepted_cache_was_written_for_this_request(eng):
+    """load_model hands out what the cache holds; that equals a fresh compile only if the cache was written by this version of
+    pymoca for the options now requested -- EVERY option that reaches the compiler, also one pymoca keeps no default for (the world's
+    `other_option`; Model.simplify reads options the default table does not list).  The comparison of library folders is C20's
+    (recorded there as a known finding) and not demanded here."""
+    w = A.make_world(eng, with_db=True, var_shapes={})
+    out, val, exc = A.run_load(eng, w)
+    if out == "raises":
+        eng.cover("request.raises")
+        return
+    eng.cover("request.returns")
+    eng.prove("request.accepted_cache_has_this_version", w.cached_version == w.current_version)
+    eng.prove("request.accepted_cache_has_every_requested_option_value", z3.And(w.opt_cached == w.opt_now, w.codegen_cached == w.codegen))
+
+
 HARNESSES = [("api.load_model/reconstruction", h_reconstruction), ("api.save_model+load_model/delay-symbol-order", h_delay_symbol_order), ("model.Variable.to_dict/from_dict", h_variable_roundtrip),
-             ("api.save_model ; api.load_model (composed round trip)", h_save_load_roundtrip), ("api.CachedModel properties", h_cached_model_properties)]
-EXPECTED_COVER = {"reconstruct.returns", "roundtrip.returns", "delayorder.done", "roundtrip2.returns", "cached.properties"}
+             ("api.save_model ; api.load_model (composed round trip)", h_save_load_roundtrip), ("api.CachedModel properties", h_cached_model_properties),
+             ("api.load_model: the accepted cache was written for this request", h_accepted_cache_was_written_for_this_request)]
+EXPECTED_COVER = {"reconstruct.returns", "roundtrip.returns", "delayorder.done", "roundtrip2.returns", "cached.properties", "request.raises", "request.returns"}
 BOUNDED = True
 LEVEL = "proof"
 TRUSTED = ["pyvc VC generator", "z3 5.1.0",
